@@ -39,10 +39,12 @@ package macro
 //@   terminates
 //@   requires mvalid(e)
 //@   assigns e.keys.macroKeys, e.keys.mutex
-//@   ensures [feeds-unescaped] (key == 0 || (key >= '0' && key <= '9') || (key >= 'a' && key <= 'z')) && len(mget(e.macros, key)) > 0 && len(inputrc.unescs(mget(e.macros, key))) > 0 && clean(runes(inputrc.unescs(mget(e.macros, key)))) ==> e.keys.macroKeys == old(e.keys.macroKeys) + runes(inputrc.unescs(mget(e.macros, key)))
+//@   ensures [feeds-unescaped] (key == 0 || isvalidid(key)) && len(mget(e.macros, key)) > 0 && len(inputrc.unescs(mget(e.macros, key))) > 0 && clean(runes(inputrc.unescs(mget(e.macros, key)))) ==> e.keys.macroKeys == old(e.keys.macroKeys) + runes(inputrc.unescs(mget(e.macros, key)))
 
+// isvalidid names the result of isValidMacroID (membership in the constant list of register names)
+//@ spec isvalidid(key rune) bool
 //@ func isValidMacroID
 //@   props C18 C01
 //@   terminates
 //@   pure
-//@   ensures (key >= '0' && key <= '9') || (key >= 'a' && key <= 'z') || (key >= 'A' && key <= 'Z') ==> result
+//@   defines isvalidid
